@@ -47,7 +47,7 @@ Theorem C07_view_at : forall (D : nat -> option nat), (forall i, D i = None -> D
 Proof. exact ViewReads.view_at_spec. Qed.
 Theorem C07_view_scan : forall (D : nat -> option nat), (forall i, D i = None -> D (S i) = None) ->
   forall (W : nat -> nat -> nat * bool), (forall c i, LayerC.WaitOK D i (W c i)) ->
-  forall big k c sp start, (forall q, D q <> None -> q < big) ->
+  forall big k c sp start, (forall q, q < start + k -> D q <> None -> q < big) ->
   (match sp with ViewReads.NLim l => l <= big | _ => True end) ->
   ViewReads.view_scan D W big k c sp start =
   ViewReads.view_listing D k sp (match sp with ViewReads.NLim l => Nat.min start l | _ => start end).
@@ -60,3 +60,13 @@ Theorem C07_view_all_len : forall (D : nat -> option nat) (W : nat -> nat -> nat
 Proof. exact ViewReads.view_all_len_spec. Qed.
 Print Assumptions C07_view_scan.
 Print Assumptions C07_view_all_len.
+
+(* backward traversal (mantissa.ReverseScan / ReverseTo over allDigits, stopped after k items) is the exact
+   reverse of the complete forward traversal from the same start, for every wait oracle *)
+Theorem C07_view_backward_is_reverse : forall (D : nat -> option nat), (forall i, D i = None -> D (S i) = None) ->
+  forall (W : nat -> nat -> nat * bool), (forall c i, LayerC.WaitOK D i (W c i)) ->
+  forall big k c sp start n, (forall q, D q <> None -> q < big) ->
+  ViewReads.view_all_len W big c sp - start < n ->
+  ViewReads.view_rev D W big k c sp start = firstn k (rev (ViewReads.view_listing D n sp start)).
+Proof. exact ViewReads.view_rev_spec. Qed.
+Print Assumptions C07_view_backward_is_reverse.
